@@ -33,10 +33,27 @@ char *__wrap_getenv(const char *name)
     }
     return __real_getenv(name);
 }
+FILE *__real_fopen(const char *, const char *); int __real_fclose(FILE *);
 /* ---- spawn trap */
 static int g_spawns; static char g_spawn_what[200];
 static int trap(const char *what, const char *arg) { g_spawns++; snprintf(g_spawn_what, sizeof g_spawn_what, "%s(%.150s)", what, arg ? arg : ""); return 0; }
-int __wrap_system(const char *c) { trap("system", c); return 0; }
+/* emulated commands (C10): "e TEXT" prints TEXT and a newline, anything else prints nothing; the library runs "CMD >OUTFILE" */
+static int g_exec_emul;
+static void emu_output(const char *cmd, char *out, size_t n)
+{
+    while (*cmd == ' ') cmd++;
+    if (cmd[0] == 'e' && (cmd[1] == ' ' || !cmd[1])) snprintf(out, n, "%s\n", cmd[1] ? cmd + 2 : ""); else out[0] = 0;
+}
+int __wrap_system(const char *c)
+{
+    if (g_exec_emul) {
+        const char *gt = NULL; for (const char *p = c; (p = strstr(p, " >")) != NULL; p += 2) gt = p;
+        if (gt) { char cmd[2048], out[2100]; snprintf(cmd, sizeof cmd, "%.*s", (int) (gt - c), c); emu_output(cmd, out, sizeof out);
+            FILE *f = __real_fopen(gt + 2, "w"); if (f) { fputs(out, f); __real_fclose(f); } }
+        return 0;
+    }
+    trap("system", c); return 0;
+}
 pid_t __real_fork(void);
 static int g_allow_fork = 1;           /* the engine forks its workers; the trap is armed only around library calls */
 pid_t __wrap_fork(void) { if (!g_allow_fork) { trap("fork", NULL); errno = EAGAIN; return -1; } return __real_fork(); }
